@@ -138,5 +138,20 @@ MANIFEST_TEXT.update({
     },
 })
 
+MANIFEST_TEXT.update({
+    "C09": {
+        "engine": "smt",
+        "level": "SMT (z3 and cvc5, answers diffed) over the impl clauses extracted from rustdoc JSON of the real crates: per "
+                 "opaque-conversion rule and marker, 'exists a payload class such that the opaque form has the marker and the "
+                 "concrete form does not' is unsat (rule is safe) or sat (finding, confirmed by rustc's own truth table computed "
+                 "in one probe compilation). The encoder's whole truth table is cross-checked against rustc on every run. "
+                 "Found 11 (rule, marker) pairs over 6 rules (upstream issue 18): open known findings.",
+        "note": "Auto-trait membership is rustc's trait solving, not execution: Kani does not apply, entailment over impl clauses "
+                "does. Composite rules (containers, objects, groups) are decided with an abstract instance whose own conversion "
+                "is assumed not to add markers. Trusts rustdoc's synthetic impls and the built-in rule table.",
+        "technique": "SMT-LIB2 entailment over extracted impl clauses (z3 + cvc5), rustc probe crate as replay oracle",
+    },
+})
+
 NOT_YET = {k: "check under construction at this commit (planned in DESIGN.md section 5); not claimed yet" for k in
-           ["C09", "C17"]}
+           ["C17"]}
